@@ -100,6 +100,15 @@ def from_python(path):
     sel = _src(wh[0].args[0])
     m = re.fullmatch(r"\(self\.x\[s\] (>=|>) xmin\) & \(self\.x\[s\] (<=|<) xmax\)", sel)
     _need(m is not None, "selection expression %r" % sel)
+    # (pinned) limits: the keyword as a float, else the first / last element in sort order; the selection is
+    # made whenever a limit is given; an empty selection raises ValueError
+    _need(_assigns(f, "xmin") == ["float(min)", "self.x[s[0]]"] and _assigns(f, "xmax") == ["float(max)", "self.x[s[-1]]"],
+          "xmin / xmax assignments")
+    _need(_assigns(f, "dowhere") == ["False", "True", "True"], "dowhere assignments")
+    emp = [n for n in ast.walk(f) if isinstance(n, ast.If) and _src(n.test) == "w.size == 0"]
+    _need(len(emp) == 1 and len(emp[0].body) == 1 and isinstance(emp[0].body[0], ast.Raise)
+          and _src(emp[0].body[0]).startswith("raise ValueError("), "ValueError on an empty selection")
+    _need(_assigns(f, "self['wsort']") == ["s[w]", "s"], "wsort assignments")
     g["lo_inclusive"] = m.group(1) == ">="
     g["hi_inclusive"] = m.group(2) == "<="
     # --- size of the reverse-index array (both engines)
@@ -119,10 +128,7 @@ def from_python(path):
     _need(len(rhs) == 2, "offset_end assignments")
     g["py_offset_end_init"] = _int_tail(rhs[0], "nbin")
     g["py_offset_end_step"] = _int_tail(rhs[1], "offset")
-    rhs = _assigns(f, "binnum")
-    _need(rhs == ["np.int64((val - dmin) / binsize)"], "python bin number expression")
-    tests = [_src(n.test) for n in ast.walk(f) if isinstance(n, ast.If)]
-    _need("binnum >= 0 and binnum < nbin" in tests and "binnum > binnum_old" in tests, "python bin tests")
+    # (bin number expression and bin tests: translated by gen_terms, tied by lemmas)
     return g
 
 
@@ -142,9 +148,7 @@ def from_c(path):
     g["c_offset_end_init"] = int(one(r"offset_end=nbin\+(\d+);", "offset_end initialisation"))
     g["c_offset_step"] = int(one(r"offset=i\+nbin\+(\d+);", "offset = i + nbin + 1"))
     g["c_offset_end_step"] = int(one(r"offset_end=offset\+(\d+);", "offset_end = offset + 1"))
-    one(r"binnum=\(npy_int64\)\(\(thisdata-datamin\)/binsize\);", "C bin number expression")
-    one(r"if\(binnum>=0&&binnum<nbin\)\{", "C bin validity test")
-    one(r"if\(dorev&&\(binnum>binnum_old\)\)\{", "C new-bin test")
+    # (bin number expression and bin tests: translated by gen_terms, tied by lemmas)
     one(r"for\(i=0;i<ndata;i\+\+\)\{", "C loop header")
     _need(len(re.findall(r"while\(tbin<=(binnum|nbin)\)\{", flat)) == 2, "C fill loops")
     # the loop bounds are the sizes of the arrays, assigned once and never adjusted
@@ -154,6 +158,300 @@ def from_c(path):
           "ndata / nbin assigned exactly once after their declaration")
     _need(len(re.findall(r"for\(", flat)) == 1 and len(re.findall(r"while\(", flat)) == 2, "exactly one for and two while loops")
     return g
+
+
+# ----------------------------------------------------------------------------- expressions -> Gallina
+# Typed translation of the few expressions the theorems are about.  Types: F (binary64), Z, B (bool),
+# OF / OZ (optional float / int keyword).  Anything else raises TranslateError (fail closed).
+PYVARS = {"self.dmax": ("dmax", "F"), "self.dmin": ("dmin", "F"), "dmin": ("dmin", "F"), "binsize": ("binsize", "F"),
+          "nbin": ("nbin", "Z"), "val": ("val", "F"), "xmin": ("xmin", "F"), "xmax": ("xmax", "F"), "self.x[s]": ("v", "F"),
+          "binnum": ("binnum", "Z"), "binnum_old": ("binnum_old", "Z")}
+FOP = {ast.Sub: "PrimFloat.sub", ast.Add: "PrimFloat.add", ast.Mult: "PrimFloat.mul", ast.Div: "PrimFloat.div"}
+ZOP = {ast.Sub: "Z.sub", ast.Add: "Z.add", ast.Mult: "Z.mul"}
+
+
+def _coerceF(t):
+    term, ty = t
+    if ty == "F":
+        return term
+    _need(ty == "Z", "a number where %s stands" % term)
+    return "(float_of_Z %s)" % term
+
+
+def _cmp(op, a, b):
+    """a `op` b on operands of one type; written the way Model.v writes comparisons (<= and < only)"""
+    (ta, tya), (tb, tyb) = a, b
+    if tya == "Z" and tyb == "Z":
+        le, lt = "(%s <=? %s)%%Z", "(%s <? %s)%%Z"
+    else:
+        ta, tb = _coerceF(a), _coerceF(b)
+        le, lt = "(PrimFloat.leb %s %s)", "(PrimFloat.ltb %s %s)"
+    if op in (ast.GtE, ">="):
+        return le % (tb, ta), "B"
+    if op in (ast.Gt, ">"):
+        return lt % (tb, ta), "B"
+    if op in (ast.LtE, "<="):
+        return le % (ta, tb), "B"
+    if op in (ast.Lt, "<"):
+        return lt % (ta, tb), "B"
+    raise TranslateError("c05_translate: comparison operator %r outside the subset" % (op,))
+
+
+def py_expr(e, optvars=()):
+    if isinstance(e, ast.Constant) and isinstance(e.value, int) and not isinstance(e.value, bool):
+        return "(%d)%%Z" % e.value, "Z"
+    src = _src(e)
+    if src in optvars:
+        return src, "O"
+    if src in PYVARS:
+        return PYVARS[src]
+    if isinstance(e, ast.Call) and not e.keywords and len(e.args) == 1:
+        f = _src(e.func)
+        a = py_expr(e.args[0], optvars)
+        if f == "np.int64":
+            _need(a[1] == "F", "np.int64 of a float expression")
+            return "(f2z_trunc %s)" % a[0], "Z"
+        if f == "float":
+            return _coerceF(a), "F"
+    if isinstance(e, ast.BinOp) and type(e.op) in FOP:
+        a, b = py_expr(e.left, optvars), py_expr(e.right, optvars)
+        if a[1] == "Z" and b[1] == "Z" and type(e.op) in ZOP:
+            return "(%s %s %s)" % (ZOP[type(e.op)], a[0], b[0]), "Z"
+        return "(%s %s %s)" % (FOP[type(e.op)], _coerceF(a), _coerceF(b)), "F"
+    if isinstance(e, ast.BinOp) and isinstance(e.op, ast.BitAnd):
+        a, b = py_expr(e.left, optvars), py_expr(e.right, optvars)
+        _need(a[1] == "B" and b[1] == "B", "& of two comparisons")
+        return "(%s && %s)" % (a[0], b[0]), "B"
+    if isinstance(e, ast.BoolOp):
+        parts = [py_expr(v, optvars) for v in e.values]
+        _need(all(p[1] == "B" for p in parts), "and/or of tests")
+        return "(" + (" && " if isinstance(e.op, ast.And) else " || ").join(p[0] for p in parts) + ")", "B"
+    if isinstance(e, ast.Compare) and len(e.ops) == 1:
+        l, r = e.left, e.comparators[0]
+        if isinstance(e.ops[0], (ast.IsNot, ast.Is)) and isinstance(r, ast.Constant) and r.value is None:
+            _need(_src(l) in optvars, "`is None` test of a keyword")
+            t = "(is_some %s)" % _src(l)
+            return (t if isinstance(e.ops[0], ast.IsNot) else "(negb %s)" % t), "B"
+        return _cmp(type(e.ops[0]), py_expr(l, optvars), py_expr(r, optvars))
+    raise TranslateError("c05_translate: expression %r outside the subset" % src)
+
+
+# --- C: a recursive-descent parser for casts, + - * / and parentheses over known variables
+CVARS = {"thisdata": ("thisdata", "F"), "datamin": ("datamin", "F"), "binsize": ("binsize", "F"),
+         "binnum": ("binnum", "Z"), "nbin": ("nbin", "Z"), "binnum_old": ("binnum_old", "Z")}
+
+
+def c_expr(text):
+    toks = re.findall(r"[A-Za-z_]\w*|\d+|[()+\-*/]", text)
+    _need("".join(toks) == re.sub(r"\s+", "", text), "C expression %r" % text)
+    pos = [0]
+
+    def peek():
+        return toks[pos[0]] if pos[0] < len(toks) else None
+
+    def eat(t=None):
+        tok = peek()
+        _need(tok is not None and (t is None or tok == t), "C expression %r" % text)
+        pos[0] += 1
+        return tok
+
+    def primary():
+        tok = peek()
+        if tok == "(":
+            if pos[0] + 2 < len(toks) and toks[pos[0] + 1] == "npy_int64" and toks[pos[0] + 2] == ")":
+                pos[0] += 3
+                a = unary()
+                _need(a[1] == "F", "(npy_int64) of a double expression")
+                return "(f2z_trunc %s)" % a[0], "Z"
+            eat("(")
+            a = expr()
+            eat(")")
+            return a
+        tok = eat()
+        if tok.isdigit():
+            return "(%s)%%Z" % tok, "Z"
+        _need(tok in CVARS, "C variable %r" % tok)
+        return CVARS[tok]
+
+    def unary():
+        return primary()
+
+    def term():
+        a = unary()
+        while peek() in ("*", "/"):
+            op = eat()
+            b = unary()
+            a = ("(%s %s %s)" % ("PrimFloat.mul" if op == "*" else "PrimFloat.div", _coerceF(a), _coerceF(b)), "F")
+        return a
+
+    def expr():
+        a = term()
+        while peek() in ("+", "-"):
+            op = eat()
+            b = term()
+            if a[1] == "Z" and b[1] == "Z":
+                a = ("(%s %s %s)" % ("Z.add" if op == "+" else "Z.sub", a[0], b[0]), "Z")
+            else:
+                a = ("(%s %s %s)" % ("PrimFloat.add" if op == "+" else "PrimFloat.sub", _coerceF(a), _coerceF(b)), "F")
+        return a
+    a = expr()
+    _need(peek() is None, "C expression %r" % text)
+    return a
+
+
+def c_cond(text):
+    """conjunction of simple comparisons; the flag dorev is on (the reverse indices are what C05 is about)"""
+    parts = []
+    for piece in text.split("&&"):
+        piece = piece.strip()
+        while piece.startswith("(") and piece.endswith(")"):
+            piece = piece[1:-1].strip()
+        if piece == "dorev":
+            continue
+        m = re.fullmatch(r"(\w+)\s*(>=|<=|>|<)\s*(\w+)", piece)
+        _need(m is not None, "C condition %r" % piece)
+        parts.append(_cmp(m.group(2), c_expr(m.group(1)), c_expr(m.group(3)))[0])
+    _need(parts, "C condition %r" % text)
+    return "(" + " && ".join(parts) + ")"
+
+
+def gen_terms(pypath, cpath):
+    """Gallina definitions translated from the expressions / tests / keyword handling of the source"""
+    tree = ast.parse(open(pypath).read())
+    d = []
+    # bin count from bin size, bin size from bin count
+    f = _func(tree, "_hist_by_binsize_or_nbin", "Binner")
+    top = [n for n in f.body if isinstance(n, ast.If)][0]
+    a_nbin = [n for n in top.body if isinstance(n, ast.Assign) and _src(n.targets[0]) == "nbin"]
+    a_bs = [n for n in top.orelse[0].body if isinstance(n, ast.Assign) and _src(n.targets[0]) == "binsize"]
+    _need(len(a_nbin) == 1 and len(a_bs) == 1, "derivations of nbin / binsize")
+    t = py_expr(a_nbin[0].value)
+    _need(t[1] == "Z", "an integer bin count")
+    d.append("Definition gen_nbin_of_binsize (dmin dmax binsize : PrimFloat.float) : Z := %s." % t[0])
+    t = py_expr(a_bs[0].value)
+    d.append("Definition gen_binsize_of_nbin (dmin dmax : PrimFloat.float) (nbin : Z) : PrimFloat.float := %s." % _coerceF(t))
+    # which keyword decides: the if-chain as a match on the optional keywords
+    def chain(node):
+        if isinstance(node, ast.If):
+            test = _src(node.test)
+            m = re.fullmatch(r"(binsize|nbin) is not None", test)
+            _need(m is not None and len(node.orelse) == 1, "if-chain of _hist_by_binsize_or_nbin")
+            var = m.group(1)
+            other = "nbin" if var == "binsize" else "binsize"
+            _need(any(isinstance(n, ast.Assign) and _src(n.targets[0]) == other for n in node.body), "branch derives " + other)
+            return "match %s with Some v => Some (%s v) | None => %s end" % (
+                var, "ByBinsize" if var == "binsize" else "ByNbin", chain(node.orelse[0]))
+        _need(isinstance(node, ast.Raise), "final raise of the if-chain")
+        return "None"
+    d.append("Definition gen_mode (binsize : option PrimFloat.float) (nbin : option Z) : option mode := %s." % chain(top))
+    # dohist: which calls reach _hist_by_binsize_or_nbin
+    f = _func(tree, "dohist", "Binner")
+    ifs = [n for n in f.body if isinstance(n, ast.If) and _src(n.test) == "nperbin is not None"]
+    _need(len(ifs) == 1 and len(ifs[0].orelse) == 1 and isinstance(ifs[0].orelse[0], ast.If), "dohist dispatch")
+    disp = ifs[0].orelse[0]
+    _need(any("_hist_by_binsize_or_nbin" in _src(n) for n in disp.body) and len(disp.orelse) == 1
+          and isinstance(disp.orelse[0], ast.Raise) and "ValueError" in _src(disp.orelse[0]), "dohist dispatch branches")
+    d.append("Definition gen_dohist_accepts (binsize : option PrimFloat.float) (nbin : option Z) : bool := %s."
+             % py_expr(disp.test, ("binsize", "nbin"))[0])
+    # histogram(): nbin switches the bin size off
+    f = _func(tree, "histogram")
+    pre = [n for n in f.body if isinstance(n, ast.If) and "binsize" in _src(n)]
+    if pre:
+        _need(len(pre) == 1 and len(pre[0].body) == 1 and _src(pre[0].body[0]) == "binsize = None" and not pre[0].orelse,
+              "histogram(): binsize switched off")
+        body = "if %s then None else binsize" % py_expr(pre[0].test, ("binsize", "nbin"))[0]
+    else:
+        body = "binsize"
+    d.append("Definition gen_hist_binsize (binsize : option PrimFloat.float) (nbin : option Z) : option PrimFloat.float := %s." % body)
+    # the selection
+    f = _func(tree, "_get_minmax_and_indices", "Binner")
+    wh = [n for n in ast.walk(f) if isinstance(n, ast.Call) and _src(n.func) == "np.where"]
+    _need(len(wh) == 1 and len(wh[0].args) == 1, "np.where selection")
+    t = py_expr(wh[0].args[0])
+    _need(t[1] == "B", "selection test")
+    d.append("Definition gen_within (xmin xmax v : PrimFloat.float) : bool := %s." % t[0])
+    # the python pass
+    f = _func(tree, "_dohist")
+    a = [n for n in ast.walk(f) if isinstance(n, ast.Assign) and _src(n.targets[0]) == "binnum"]
+    _need(len(a) == 1, "python bin number")
+    t = py_expr(a[0].value)
+    _need(t[1] == "Z", "integer bin number")
+    d.append("Definition gen_py_binnum (val dmin binsize : PrimFloat.float) : Z := %s." % t[0])
+    tests = [n.test for n in ast.walk(f) if isinstance(n, ast.If)]
+    valid = [t for t in tests if "binnum" in _src(t) and "nbin" in _src(t) and "binnum_old" not in _src(t)]
+    newb = [t for t in tests if "binnum_old" in _src(t)]
+    _need(len(valid) == 1 and len(newb) == 1, "python bin tests")
+    d.append("Definition gen_py_valid (binnum nbin : Z) : bool := %s." % py_expr(valid[0])[0])
+    d.append("Definition gen_py_newbin (binnum binnum_old : Z) : bool := %s." % py_expr(newb[0])[0])
+    # the C pass
+    txt = open(cpath).read()
+    txt = re.sub(r"//[^\n]*", "", txt)
+    txt = re.sub(r"/\*.*?\*/", "", txt, flags=re.S)
+    m = re.findall(r"\bbinnum\s*=\s*([^;]+);", txt)
+    m = [x for x in m if "," not in x]                                         # not the declaration list
+    _need(len(m) == 1, "C bin number assignment")
+    t = c_expr(m[0].strip())
+    _need(t[1] == "Z", "integer C bin number")
+    d.append("Definition gen_c_binnum (thisdata datamin binsize : PrimFloat.float) : Z := %s." % t[0])
+    conds = re.findall(r"\bif\s*\((.*?)\)\s*\{", txt, flags=re.S)
+    conds = [re.sub(r"\s+", " ", c).strip() for c in conds]
+    valid = [c for c in conds if "binnum" in c and "binnum_old" not in c]
+    newb = [c for c in conds if "binnum_old" in c]
+    _need(len(valid) == 1 and len(newb) == 1, "C bin tests %r" % conds)
+    d.append("Definition gen_c_valid (binnum nbin : Z) : bool := %s." % c_cond(valid[0]))
+    d.append("Definition gen_c_newbin (binnum binnum_old : Z) : bool := %s." % c_cond(newb[0]))
+    return "\n".join(d) + "\n"
+
+
+GLUE = """
+Definition is_some {A} (o : option A) : bool := match o with Some _ => true | None => false end.
+"""
+
+GLUE2 = """
+(* signature defaults: histogram(binsize=<gen_default_binsize>), dohist(binsize=None); nbin=None in both *)
+Definition gen_resolve (a : api) (k : kw) (nbin : option Z) : option mode :=
+  let binsize := match a with
+                 | ApiHistogram => gen_hist_binsize (match k with KwVal v => Some v | KwNone => None | KwOmit => Some gen_default_binsize end) nbin
+                 | ApiBinner => match k with KwVal v => Some v | _ => None end
+                 end in
+  if gen_dohist_accepts binsize nbin then gen_mode binsize nbin else None.
+"""
+
+# tie lemmas: every translated term is what the model's definitions use (re-proved on every run)
+TIES = [
+    ("derive(binsize) uses the translated bin count",
+     "forall dmin dmax b, derive dmin dmax (ByBinsize b) = Ok (b, gen_nbin_of_binsize dmin dmax b)", "reflexivity."),
+    ("derive(nbin) uses the translated bin size",
+     "forall dmin dmax n, n <> 0%Z -> derive dmin dmax (ByNbin n) = Ok (gen_binsize_of_nbin dmin dmax n, n)",
+     "intros dmin dmax n H. unfold derive. destruct (n =? 0)%Z eqn:E; [apply Z.eqb_eq in E; contradiction|reflexivity]."),
+    ("binnum = translated python bin number", "forall x dmin bs k, binnum x dmin bs k = gen_py_binnum (fget x k) dmin bs", "reflexivity."),
+    ("binnum = translated C bin number", "forall x dmin bs k, binnum x dmin bs k = gen_c_binnum (fget x k) dmin bs", "reflexivity."),
+    ("within = translated selection", "forall a b v, within a b v = gen_within a b v", "reflexivity."),
+    ("valid_bin = translated python test", "forall nbin b, valid_bin nbin b = gen_py_valid b nbin", "reflexivity."),
+    ("valid_bin = translated C test", "forall nbin b, valid_bin nbin b = gen_c_valid b nbin", "reflexivity."),
+    ("resolve = translated keyword handling", "forall a k nb, resolve a k nb = gen_resolve a k nb", "intros a k nb; destruct a, k, nb; reflexivity."),
+    ("one step of the C loop, with the translated tests and regenerated constants",
+     "forall bn nbin k ss i binold oe hist rev, c_loop bn nbin (k :: ss) i binold oe hist rev = "
+     "(let offset := i + nbin + gen_c_offset_step in let rev := zset rev offset k in "
+     "if gen_c_valid (bn k) nbin then c_loop bn nbin ss (i + 1) (bn k) (offset + gen_c_offset_end_step) "
+     "(zset hist (bn k) (zget hist (bn k) + 1)) (if gen_c_newbin (bn k) binold then fill rev (binold + 1) (Z.to_nat (bn k - binold)) offset else rev) "
+     "else c_loop bn nbin ss (i + 1) binold oe hist rev)%Z", "reflexivity."),
+    ("one step of the python loop, with the translated tests and regenerated constants",
+     "forall bn nbin k ss offset binold oe hist rev, py_loop bn nbin (k :: ss) offset binold oe hist rev = "
+     "(let rev := zset rev offset k in "
+     "if gen_py_valid (bn k) nbin then py_loop bn nbin ss (offset + 1) (bn k) (offset + gen_py_offset_end_step) "
+     "(zset hist (bn k) (zget hist (bn k) + 1)) (if gen_py_newbin (bn k) binold then fill rev (binold + 1) (Z.to_nat (bn k - binold)) offset else rev) "
+     "else py_loop bn nbin ss (offset + 1) binold oe hist rev)%Z",
+     "intros; cbn [py_loop]; unfold gen_py_newbin; rewrite Z.gtb_ltb; reflexivity."),
+    ("initialisation of the C pass with the regenerated constants",
+     "forall bn nbin s, chist bn nbin s = (let nrev := Z.of_nat (length s) + nbin + gen_rev_extra in "
+     "let '(binold, offset_end, hist, rev) := c_loop bn nbin s 0 gen_c_binold_init (nbin + gen_c_offset_end_init) (zeros nbin) (zeros nrev) in "
+     "(hist, fill rev (binold + 1) (Z.to_nat (nbin - binold)) offset_end))%Z", "reflexivity."),
+    ("initialisation of the python pass with the regenerated constants",
+     "forall bn nbin s, pyhist bn nbin s = (let nrev := Z.of_nat (length s) + nbin + gen_rev_extra in "
+     "let '(binold, offset_end, hist, rev) := py_loop bn nbin s (nbin + gen_py_offset_init) gen_py_binold_init (nbin + gen_py_offset_end_init) (zeros nbin) (zeros nrev) in "
+     "(hist, fill rev (binold + 1) (Z.to_nat (nbin - binold)) offset_end))%Z", "reflexivity."),
+]
 
 
 def translate(impl_root):
@@ -169,7 +467,9 @@ def translate(impl_root):
             lines.append("Definition gen_%s : PrimFloat.float := %s%%float." % (k, v.hex()))
         else:
             lines.append("Definition gen_%s : Z := (%d)%%Z." % (k, v))
-    return g, "\n".join(lines) + "\n"
+    terms = gen_terms(os.path.join(impl_root, "esutil", "stat", "util.py"),
+                      os.path.join(impl_root, "esutil", "stat", "chist_pywrap.c"))
+    return g, "\n".join(lines) + "\n" + GLUE + terms + GLUE2
 
 
 if __name__ == "__main__":
